@@ -1,6 +1,6 @@
 SPECIFICATION Spec
 CONSTANTS
-  PMax = 160
+  PMax = 80
   DMax = 40
 INVARIANTS TypeOK ISum IDelta ICancel IConf IViews
 CHECK_DEADLOCK FALSE
